@@ -1447,6 +1447,43 @@ impl GroupEncoding for JubjubAffine {
     }
 }
 
+/// Verification hooks: raw (private) coordinates of the Jubjub point representations, for
+/// the correspondence harness. Add-only; no effect without the `verif-hooks` feature.
+#[cfg(feature = "verif-hooks")]
+impl JubjubExtended {
+    /// Raw extended coordinates `(U, V, Z, T1, T2)`.
+    pub fn verif_raw(&self) -> [Base; 5] {
+        [self.u, self.v, self.z, self.t1, self.t2]
+    }
+
+    /// Builds an extended point from raw coordinates without any check.
+    pub fn verif_from_raw(c: [Base; 5]) -> Self {
+        JubjubExtended {
+            u: c[0],
+            v: c[1],
+            z: c[2],
+            t1: c[3],
+            t2: c[4],
+        }
+    }
+}
+
+#[cfg(feature = "verif-hooks")]
+impl JubjubAffineNiels {
+    /// Raw coordinates `(v + u, v - u, 2d·u·v)`.
+    pub fn verif_raw(&self) -> [Base; 3] {
+        [self.v_plus_u, self.v_minus_u, self.t2d]
+    }
+}
+
+#[cfg(feature = "verif-hooks")]
+impl ExtendedNielsPoint {
+    /// Raw coordinates `(V + U, V - U, Z, 2d·T1·T2)`.
+    pub fn verif_raw(&self) -> [Base; 4] {
+        [self.v_plus_u, self.v_minus_u, self.z, self.t2d]
+    }
+}
+
 #[test]
 fn test_is_on_curve_var() {
     assert!(JubjubAffine::identity().is_on_curve_vartime());
